@@ -14,6 +14,7 @@ import (
 	"time"
 
 	"bfeverif/harness/internal/vh"
+	"github.com/bfenetworks/bfe/bfe_balance"
 	"github.com/bfenetworks/bfe/bfe_basic"
 	"github.com/bfenetworks/bfe/bfe_http"
 	"github.com/bfenetworks/bfe/bfe_module"
@@ -429,10 +430,91 @@ func genServe(r *vh.Rand) string {
 	return "serve " + c0 + "g|" + bl + "|" + fp + "|" + al
 }
 
+// ---- balreload: the balancer table's own lock domain ------------------------------------------------------------
+//
+// op = `balreload <steps>`; steps: g = a good gslb + cluster_table reload, m = gslb names a cluster the cluster table
+// lacks (BalTableReload fails half-way, under its lock), w = gslb file with an all-zero cluster (rejected by the loader,
+// before the lock), l = Lookup of a cluster (what every request does).  Every step runs under a watchdog: a step that
+// does not return is HANG (the table's mutex was left locked) and ends the case.
+
+func balFiles(kind byte, n int) (string, string) {
+	d := filepath.Join(dir(), "bal")
+	os.MkdirAll(d, 0755)
+	w := func(name, content string) string {
+		p := filepath.Join(d, name)
+		if err := os.WriteFile(p, []byte(content), 0644); err != nil {
+			panic(err)
+		}
+		return p
+	}
+	be := func(i int) string {
+		return fmt.Sprintf(`[{"Name":"b%d","Addr":"10.0.0.%d","Port":80,"Weight":1}]`, i, i)
+	}
+	ct := fmt.Sprintf(`{"Version":"%d","Config":{"cA":{"s1":%s,"s2":%s},"cB":{"s1":%s}}}`, n, be(1), be(2), be(3))
+	gs := fmt.Sprintf(`{"Clusters":{"cA":{"s1":%d,"s2":%d},"cB":{"s1":10}},"Hostname":"h","Ts":"%d"}`, 10+n, 5, n)
+	switch kind {
+	case 'm':
+		gs = fmt.Sprintf(`{"Clusters":{"cA":{"s1":10,"s2":5},"ghost":{"s1":10}},"Hostname":"h","Ts":"%d"}`, n)
+	case 'w':
+		gs = fmt.Sprintf(`{"Clusters":{"cA":{"s1":0,"s2":0}},"Hostname":"h","Ts":"%d"}`, n)
+	}
+	return w("gslb.data", gs), w("cluster_table.data", ct)
+}
+
+func balReload(body string) string {
+	t := bfe_balance.NewBalTable(nil)
+	g, c := balFiles('g', 0)
+	if err := t.Init(g, c); err != nil {
+		return "init-failed"
+	}
+	var out []string
+	for i := 0; i < len(body); i++ {
+		k := body[i]
+		n := i + 1
+		res := vh.SafeTimeout(5*time.Second, func() string {
+			switch k {
+			case 'l':
+				if _, err := t.Lookup("cA"); err != nil {
+					return "err"
+				}
+				return "ok"
+			case 'g', 'm', 'w':
+				gf, cf := balFiles(k, n)
+				// as BfeServer.gslbDataConfReload does
+				gc, bc, err := t.BalTableConfLoad(gf, cf)
+				if err != nil {
+					return "err"
+				}
+				if err := t.BalTableReload(gc, bc); err != nil {
+					return "err"
+				}
+				return "ok"
+			}
+			return "bad"
+		})
+		out = append(out, res)
+		if res == "HANG" {
+			break
+		}
+	}
+	return strings.Join(out, ",")
+}
+
+func genBalReload(r *vh.Rand) string {
+	n := r.Range(2, 5)
+	b := make([]byte, n)
+	for i := range b {
+		b[i] = "ggmmwl"[r.Intn(6)]
+	}
+	return "balreload " + string(b) + "l" + r.Pick("g", "m", "")
+}
+
 func exec(op string) string {
 	switch {
 	case strings.HasPrefix(op, "sched "):
 		return sched(op[6:])
+	case strings.HasPrefix(op, "balreload "):
+		return balReload(op[10:])
 	case strings.HasPrefix(op, "serve "):
 		return serve(op[6:])
 	case strings.HasPrefix(op, "stress "):
@@ -448,6 +530,9 @@ func exec(op string) string {
 func gen(r *vh.Rand) string {
 	if r.Chance(1, 150) {
 		return fmt.Sprintf("stress %d", r.Range(5, 30))
+	}
+	if r.Chance(1, 25) {
+		return genBalReload(r)
 	}
 	if r.Chance(2, 5) {
 		return genServe(r)
